@@ -604,3 +604,124 @@ Proof.
     + destruct (Nat.eqb (fst x) n), (Nat.eqb (fst y) n); try apply perm_swap; try reflexivity.
     + eapply Permutation_trans; eassumption.
 Qed.
+
+(* ------------------------------------------------------------------------------------------------------------
+   listeners that raise
+   ------------------------------------------------------------------------------------------------------------ *)
+Lemma call_until_raised bad l m : call_until bad l = (m, true) ->
+  exists pre x post, l = pre ++ x :: post /\ m = pre ++ [x] /\ bad x = true /\ Forall (fun y => bad y = false) pre.
+Proof.
+  revert m. induction l as [|a l IH]; intros m H; cbn [call_until] in H; [discriminate|].
+  destruct (bad a) eqn:Ea.
+  - inversion H; subst. exists [], a, l. repeat split; auto.
+  - destruct (call_until bad l) as [m' b] eqn:E. inversion H; subst.
+    destruct (IH m' eq_refl) as (pre & x & post & -> & -> & Hx & Hp). exists (a :: pre), x, post. repeat split; auto.
+Qed.
+
+Lemma call_until_clean bad l m : call_until bad l = (m, false) -> m = l /\ Forall (fun y => bad y = false) l.
+Proof.
+  revert m. induction l as [|a l IH]; intros m H; cbn [call_until] in H.
+  - inversion H. auto.
+  - destruct (bad a) eqn:Ea; [discriminate|]. destruct (call_until bad l) as [m' b] eqn:E. inversion H; subst.
+    destruct (IH m' eq_refl) as [-> Hf]. auto.
+Qed.
+
+Lemma call_until_all_clean bad l : Forall (fun y => bad y = false) l -> call_until bad l = (l, false).
+Proof.
+  induction 1 as [|a l Ha Hl IH]; [reflexivity|]. cbn [call_until]. now rewrite Ha, IH.
+Qed.
+
+(* what the frame of an emission leaves alone *)
+Definition same_frame (s s' : sim) : Prop :=
+  clock s' = clock s /\ stepsz s' = stepsz s /\ stop s' = stop s /\ lst s' = lst s /\ inits s' = inits s
+  /\ icalls s' = icalls s /\ nsteps s' = nsteps s.
+
+Lemma emit_r_clean bad s c s' : emit_r bad s c = (s', false) ->
+  s' = do_emit s c /\ Forall (fun y => bad y = false) (emission_tcalls (lst s) (clock s) (stepsz s) c).
+Proof.
+  unfold emit_r. destruct (call_until bad _) as [m b] eqn:E. intros H. inversion H; subst.
+  destruct (call_until_clean _ _ _ E) as [-> Hf]. auto.
+Qed.
+
+Lemma emits_r_clean bad cs : forall s s', emits_r bad s cs = (s', false) ->
+  s' = fold_left do_emit cs s
+  /\ Forall (fun y => bad y = false) (flat_map (emission_tcalls (lst s) (clock s) (stepsz s)) cs).
+Proof.
+  induction cs as [|c cs IH]; intros s s' H; cbn [emits_r] in H.
+  - inversion H. split; [reflexivity | constructor].
+  - destruct (emit_r bad s c) as [s1 b] eqn:E. destruct b; [discriminate|].
+    destruct (emit_r_clean _ _ _ _ E) as [-> Hf]. destruct (IH _ _ H) as [-> Hf2]. split; [reflexivity|].
+    cbn [flat_map]. apply Forall_app. split; assumption.
+Qed.
+
+Lemma emits_r_raised bad cs : forall s s', emits_r bad s cs = (s', true) ->
+  same_frame s s' /\
+  exists pre x post, flat_map (emission_tcalls (lst s) (clock s) (stepsz s)) cs = pre ++ x :: post
+    /\ calls s' = calls s ++ pre ++ [x] /\ bad x = true /\ Forall (fun y => bad y = false) pre.
+Proof.
+  induction cs as [|c cs IH]; intros s s' H; cbn [emits_r] in H; [discriminate|].
+  destruct (emit_r bad s c) as [s1 b] eqn:E. destruct b.
+  - inversion H; subst. unfold emit_r in E. destruct (call_until bad _) as [m b] eqn:Ec. inversion E; subst.
+    destruct (call_until_raised _ _ _ Ec) as (pre & x & post & El & -> & Hx & Hp).
+    split; [repeat split|]. exists pre, x, (post ++ flat_map (emission_tcalls (lst s) (clock s) (stepsz s)) cs).
+    cbn [flat_map]. rewrite El. repeat split; auto. now rewrite <- app_assoc.
+  - destruct (emit_r_clean _ _ _ _ E) as [-> Hf]. destruct (IH _ _ H) as [Fr (pre & x & post & El & Ec & Hx & Hp)].
+    cbn in El, Ec. split.
+    + destruct Fr as (A & B & C & D & F & G & I). repeat split; assumption.
+    + exists (emission_tcalls (lst s) (clock s) (stepsz s) c ++ pre), x, post. cbn [flat_map]. rewrite El.
+      repeat split; auto.
+      * now rewrite <- app_assoc.
+      * rewrite Ec. now rewrite <- !app_assoc.
+      * apply Forall_app. split; assumption.
+Qed.
+
+(* THE statement: a raising listener never causes a later listener or a later event of that step to be called, nor the
+   clock (or the step size, or the step count) to move *)
+Theorem raising_listener_abandons_step bad nxt s s' : step_r bad nxt s = (s', true) ->
+  clock s' = clock s /\ stepsz s' = stepsz s /\ nsteps s' = nsteps s /\ icalls s' = icalls s /\ lst s' = lst s /\
+  exists pre x post, step_tcalls (lst s) (clock s) (stepsz s) = pre ++ x :: post
+    /\ calls s' = calls s ++ pre ++ [x] /\ bad x = true /\ Forall (fun y => bad y = false) pre.
+Proof.
+  unfold step_r. destruct (emits_r bad s step_channels) as [s1 b] eqn:E. destruct b; [|discriminate].
+  intros H. inversion H; subst. destruct (emits_r_raised _ _ _ _ E) as [(A & B & _ & D & _ & G & I) X].
+  repeat split; assumption.
+Qed.
+
+(* ... and if nothing raises, the step is the ordinary step *)
+Theorem step_r_clean bad nxt s s' : step_r bad nxt s = (s', false) ->
+  s' = step nxt s /\ Forall (fun y => bad y = false) (step_tcalls (lst s) (clock s) (stepsz s)).
+Proof.
+  unfold step_r. destruct (emits_r bad s step_channels) as [s1 b] eqn:E. destruct b; [discriminate|].
+  intros H. inversion H; subst. destruct (emits_r_clean _ _ _ _ E) as [-> Hf]. split; [reflexivity | exact Hf].
+Qed.
+
+Lemma emits_r_never cs : forall s, emits_r (fun _ => false) s cs = (fold_left do_emit cs s, false).
+Proof.
+  induction cs as [|c cs IH]; intros s; [reflexivity|]. cbn [emits_r fold_left]. unfold emit_r.
+  rewrite call_until_all_clean by (apply Forall_forall; reflexivity). apply IH.
+Qed.
+
+Theorem step_r_never nxt s : step_r (fun _ => false) nxt s = (step nxt s, false).
+Proof. unfold step_r. rewrite emits_r_never. reflexivity. Qed.
+
+(* without raising listeners the model with exceptions IS the model without *)
+Theorem run_loop_r_never fuel : forall nxt s,
+  run_loop_r fuel (fun _ => false) nxt s
+  = match run_loop fuel nxt s with Ok s' => Ok (s', false) | Rejected e => Rejected e | OutOfFuel => OutOfFuel end.
+Proof.
+  induction fuel as [|f IH]; intros nxt s; cbn [run_loop_r run_loop]; destruct (clock s <? stop s); try reflexivity.
+  rewrite step_r_never. apply IH.
+Qed.
+
+(* a run abandoned by a raising listener stands where that step began: before the stop time *)
+Theorem run_loop_r_raised fuel : forall bad nxt s s', run_loop_r fuel bad nxt s = Ok (s', true) ->
+  clock s' < stop s'.
+Proof.
+  induction fuel as [|f IH]; intros bad nxt s s' H; cbn [run_loop_r] in H;
+    destruct (Z.ltb_spec (clock s) (stop s)) as [Hl|Hg]; try discriminate.
+  destruct (step_r bad nxt s) as [s1 b] eqn:E. destruct b.
+  - inversion H; subst. unfold step_r in E. destruct (emits_r bad s step_channels) as [s2 b2] eqn:E2.
+    destruct b2; [|discriminate]. inversion E; subst.
+    destruct (emits_r_raised _ _ _ _ E2) as [(A & _ & C & _) _]. rewrite A, C. exact Hl.
+  - eapply IH. exact H.
+Qed.
